@@ -3,6 +3,7 @@ use syn::{parse_quote, spanned::Spanned};
 
 use crate::ast::NestedMeta;
 use crate::error::Accumulator;
+use crate::util::parse_attribute_to_meta_list;
 use crate::{Error, FromMeta, Result};
 
 mod core;
@@ -87,21 +88,26 @@ pub trait ParseAttribute: Sized {
 }
 
 fn parse_attr<T: ParseAttribute>(attr: &syn::Attribute, target: &mut T) -> Result<()> {
-    let mut errors = Error::accumulator();
-    match &attr.meta {
-        syn::Meta::List(data) => {
-            for item in NestedMeta::parse_meta_list(data.tokens.clone())? {
-                if let NestedMeta::Meta(ref mi) = item {
-                    errors.handle(target.parse_nested(mi));
-                } else {
-                    panic!("Wasn't able to parse: `{:?}`", item);
-                }
-            }
+    // `#[darling]` is treated as an empty list and `#[darling = ...]` is an error, exactly
+    // as the derived traits treat their own attributes.
+    let data = parse_attribute_to_meta_list(attr)?;
 
-            errors.finish()
+    // Parse before creating the accumulator, so that a syntax error does not drop it unfinished.
+    let items = NestedMeta::parse_meta_list(data.tokens)?;
+
+    let mut errors = Error::accumulator();
+    for item in items {
+        match item {
+            NestedMeta::Meta(ref mi) => {
+                errors.handle(target.parse_nested(mi));
+            }
+            NestedMeta::Lit(ref lit) => {
+                errors.push(Error::unsupported_format("literal").with_span(lit));
+            }
         }
-        item => panic!("Wasn't able to parse: `{:?}`", item),
     }
+
+    errors.finish()
 }
 
 /// Middleware for extracting values from the body of the derive input. Implementers are
